@@ -242,7 +242,84 @@ func (P *Prog) collectFuncs() {
 			}
 		}
 	}
+	P.aliasRenamed()
 	sort.Slice(P.RepoFuncs, func(i, j int) bool { return FuncName(P.RepoFuncs[i]) < FuncName(P.RepoFuncs[j]) })
+}
+
+// renamedFunc maps a function that was renamed since the reviewed tree to the name it was reviewed under.
+var renamedFunc = map[*ssa.Function]string{}
+
+// aliasRenamed: a reviewed unexported function that no longer exists, while exactly one new unexported function with the
+// same package and receiver appeared, is that function under a new name. It keeps its reviewed name for every table, key
+// and anchor (renaming a helper changes nothing the rules speak about). Ambiguous cases (several gone, several new) are
+// left alone: the rules then report the anchor as missing.
+func (P *Prog) aliasRenamed() {
+	renamedFunc = map[*ssa.Function]string{}
+	if len(reviewedFuncs) == 0 {
+		return
+	}
+	prefixOf := func(name string) (string, string) {
+		i := strings.LastIndex(name, ".")
+		if i < 0 {
+			return "", name
+		}
+		return name[:i+1], name[i+1:]
+	}
+	unexported := func(n string) bool { return n != "" && !(n[0] >= 'A' && n[0] <= 'Z') && n != "init" }
+	gone := map[string][]string{}
+	for name := range reviewedFuncs {
+		if _, ok := P.byName[name]; !ok {
+			pre, base := prefixOf(name)
+			if unexported(base) && !strings.Contains(base, "$") {
+				gone[pre] = append(gone[pre], name)
+			}
+		}
+	}
+	fresh := map[string][]*ssa.Function{}
+	for _, fn := range P.RepoFuncs {
+		if fn.Parent() != nil {
+			continue
+		}
+		name := short(fn.RelString(nil))
+		if !isReviewedFunc(name) {
+			pre, base := prefixOf(name)
+			if unexported(base) {
+				fresh[pre] = append(fresh[pre], fn)
+			}
+		}
+	}
+	for pre, names := range gone {
+		// pair by signature: a gone name and a fresh function of the same package and receiver with the same signature,
+		// when that pairing is unique on both sides
+		for _, old := range names {
+			var cands []*ssa.Function
+			for _, fn := range fresh[pre] {
+				if short(fn.Signature.String()) == reviewedFuncs[old] {
+					cands = append(cands, fn)
+				}
+			}
+			rivals := 0
+			for _, other := range names {
+				if reviewedFuncs[other] == reviewedFuncs[old] {
+					rivals++
+				}
+			}
+			if len(cands) == 1 && rivals == 1 {
+				fn := cands[0]
+				renamedFunc[fn] = old
+				delete(P.byName, short(fn.RelString(nil)))
+				P.byName[old] = fn
+			}
+		}
+	}
+	if len(renamedFunc) > 0 {
+		// closures of a renamed function are registered under the reviewed name as well
+		for _, fn := range P.RepoFuncs {
+			if fn.Parent() != nil {
+				P.byName[FuncName(fn)] = fn
+			}
+		}
+	}
 }
 
 // FuncName is the canonical short name of a function: "(x/oracle/keeper.Keeper).SetValue",
@@ -251,7 +328,20 @@ func FuncName(fn *ssa.Function) string {
 	if fn == nil {
 		return "<nil>"
 	}
-	return short(fn.RelString(nil))
+	name := short(fn.RelString(nil))
+	if len(renamedFunc) > 0 {
+		top := fn
+		for top.Parent() != nil {
+			top = top.Parent()
+		}
+		if old, ok := renamedFunc[top]; ok {
+			cur := short(top.RelString(nil))
+			if strings.HasPrefix(name, cur) {
+				name = old + name[len(cur):]
+			}
+		}
+	}
+	return name
 }
 
 // Func returns the repository function with the given canonical name; nil if absent.
